@@ -193,6 +193,16 @@ def p_reuse_stateful(case, v):
     return x_reuse_stateful(spec)
 
 
+def p_nondyadic_timetable(case, v):
+    """F28 applies only when some schedule / slot boundary or offset is not a multiple of 0.5 (i.e. not exact in binary)."""
+    for nd in case.get("nodes", []):
+        sv = nd["servers"]
+        vals = list(sv.get("ends", [])) + list(sv.get("slots", [])) + [sv.get("offset", 0.0)]
+        if any((x * 2) != int(x * 2) for x in vals):
+            return True
+    return False
+
+
 EXCLUSIONS = {
     "reuse_stateful": x_reuse_stateful,
     "pause_busy_time_priority": x_pause_busy_time_priority,
